@@ -142,6 +142,9 @@ pub enum Edit {
     Duplast { f: String },
     Swap01 { f: String },
     Push { f: String, v: Val },
+    /// the combiner attack: t_x_blinding += d and e_blinding -= r * d, where r is the weight the verifier derived (on its transcript fork)
+    /// when it checked the unaltered proof. A verifier whose r depends on these two scalars - as it must - derives another r and rejects.
+    Rshift { d: Val },
     /// flip bit `bit` of the encoding
     Bitflip { bit: usize },
     /// truncate the encoding to `len` bytes
